@@ -62,6 +62,9 @@ DeriveMsg(cls, mk) ==
     \* fields whose values cannot describe themselves (str() raises, unknown attributes raise KeyError): the feedback
     \* is delivered all the same, with the value's repr (or the default object repr) in the field's place
     ELSE IF mk = "kwhostile" THEN [k |-> "template", t |-> "kwh", f |-> fmt]
+    \* the instructor passes ONE dictionary as fields= to several feedbacks, each with a location of its own: every
+    \* message is about its own location
+    ELSE IF mk = "kwshared" THEN [k |-> "template", t |-> "kws", f |-> fmt]
     ELSE [k |-> "template", t |-> Eff(attr, cls, "template"), f |-> fmt]
 NoMsg == [k |-> "none", t |-> "-", f |-> "-"]
 
@@ -101,7 +104,7 @@ Attach(o, i) == /\ active' = IF o.list = "active" THEN Append(active, i) ELSE ac
 \* par: the `parent` keyword -- "none", or "str": a section named by a plain string (bookkeeping is the same)
 Create(cls, mk, out, delay, par) ==
     /\ CanAct /\ Len(objs) < MaxObjs
-    /\ ~(mk = "explicit" /\ out = "MR") /\ ~(cls = "T" /\ out \in {"CR", "CX"}) /\ ~(cls = "T" /\ mk \in {"kwnested", "kwcustom", "kwattr", "kwhostile"})
+    /\ ~(mk = "explicit" /\ out = "MR") /\ ~(cls = "T" /\ out \in {"CR", "CX"}) /\ ~(cls = "T" /\ mk \in {"kwnested", "kwcustom", "kwattr", "kwhostile", "kwshared"})
     /\ delay => cls \in DelayCls
     /\ LET o0 == [cls |-> cls, mk |-> mk, out |-> out, eff |-> out, status |-> "delayed", truth |-> FALSE,
                   list |-> "none", msg |-> NoMsg]
